@@ -13,10 +13,12 @@ NATIVE_PY = "/venv/bin/python"
 PLANS = {
     "C10": {
         "level": "proof",
-        "sidecars": ["cifread"],
+        "sidecars": ["cifread", "cifloop"],
         "extras": [{"name": "c10_equivalence", "module": "bounded.c10_equivalence", "func": "run", "python": "venv"}],
         "explanation": "the record assembled for an atom_site row parses back to the row's items under both missing-value "
-                       "conventions (layout logic); model list keeps file order; PDB-vs-mmCIF pipeline equivalence bounded",
+                       "conventions (layout logic); model list keeps file order; the row loops of atom_site proved by induction "
+                       "over the rows (one record per coordinate row, in row order, models between their MODEL/ENDMDL); "
+                       "PDB-vs-mmCIF pipeline equivalence bounded",
     },
     "C03": {
         "level": "other",
